@@ -723,13 +723,46 @@ def G7(ctx: Ctx) -> RuleResult:
     else:
         r.fail('RANGE brackets', f'bracket lexemes {br} do not agree with startswith("!")/endswith("!") in range_literal', 'src/hpl/grammar.py')
     rl = methods.get('range_literal')
-    if rl is not None:
-        src = ast.unparse(rl.node)
-        p = rl.params()[1:]
-        if len(p) == 4 and f"{p[0]}.startswith('!')" in src and f"{p[3]}.endswith('!')" in src:
-            r.ok('range_literal: exclude_min from the left bracket, exclude_max from the right bracket')
+    if rl is not None and len(br) == 4:
+        # the callback evaluated at each of the four bracket combinations the grammar has: the flags must come out as
+        # (left bracket is the exclusive one, right bracket is the exclusive one), however the callback computes them
+        from .rules_flows import callback_outcomes, parser_eval
+        from .terms import Const as _K, New as _New, Sym as _Sym, expand_outcomes, guards_consistent
+        from .util import fold_closed
+        fi, _, _ = callback_outcomes(ctx, 'range_literal')
+        ps = fi.params()
+        bad = None
+        if len(ps) != 5:
+            bad = f'unexpected parameters {ps}'
         else:
-            r.fail('range_literal:brackets', 'exclusivity flags are not computed from startswith("!") of the left / endswith("!") of the right bracket', rl.where)
+            ev = parser_eval(ctx)
+            for ln, rn in (('L_RANGE_EXC', 'R_RANGE_EXC'), ('L_RANGE_EXC', 'R_RANGE_INC'), ('L_RANGE_INC', 'R_RANGE_EXC'), ('L_RANGE_INC', 'R_RANGE_INC')):
+                ev._stack.append(fi.key)
+                try:
+                    lo = [o for o in expand_outcomes(ev.run(fi, {ps[1]: _K(br[ln]), ps[2]: _Sym('c1'), ps[3]: _Sym('c2'), ps[4]: _K(br[rn])}))
+                          if guards_consistent(o.guards) and all(not (isinstance(fold_closed(g), _K) and bool(fold_closed(g).value) != pol) for g, pol in o.guards)]
+                finally:
+                    ev._stack.pop()
+                rets = [o for o in lo if o.kind == 'return']
+                if not rets or len(rets) != len(lo):
+                    bad = f'no single result for {br[ln]} ... {br[rn]}'
+                    break
+                for o in rets:
+                    val = o.value
+                    if not isinstance(val, _New):
+                        bad = f'result for {br[ln]} ... {br[rn]} is not a constructed range: {val!r}'
+                        break
+                    got = (fold_closed(val.get('exclude_min')), fold_closed(val.get('exclude_max')))
+                    want = (_K(ln.endswith('EXC')), _K(rn.endswith('EXC')))
+                    if got != want:
+                        bad = f'{br[ln]} ... {br[rn]} gives exclude_min={got[0]!r}, exclude_max={got[1]!r}'
+                        break
+                if bad:
+                    break
+        if bad is None:
+            r.ok('range_literal: exclude_min from the left bracket, exclude_max from the right bracket (evaluated at the four bracket pairs)')
+        else:
+            r.fail('range_literal:brackets', f'exclusivity flags do not follow the brackets: {bad}', rl.where)
     return r
 
 
